@@ -147,6 +147,66 @@ func c01Prelude(w *zzWorld, remote string) {
 	}
 }
 
+// A request whose remote address has NO session in the context: the peer never went through
+// hap.NewConnection's bookkeeping, or the session was removed by the (late) Close of an
+// earlier connection from the same address and port. It is refused like any unverified one.
+func Harness_C01_q_request_without_session() {
+	w := newWorld()
+	w.connect("10.0.0.2:5000", true) // a verified controller elsewhere
+	remote := "10.0.0.9:6000"
+	switch verif.Choice("why-no-session", 2) {
+	case 0:
+		verif.Fact("session", "never created")
+	case 1:
+		verif.Fact("session", "removed by the Close of an earlier connection from the same address")
+		c := &zzConn{addr: zzAddr(remote)}
+		hc := hap.NewConnection(c, w.ctx)
+		hc.Close()
+	}
+	w.db.SaveEntity(db.NewEntity(w.dev.name, w.dev.pub, w.dev.priv))
+	w.db.SaveEntity(dbEntity("controller-1"))
+	oldOn, oldBright := w.on.Characteristic.Value, w.bright.Characteristic.Value
+	saves0, deletes0 := w.db.saves, w.db.deletes
+	endpoints := []string{"/accessories", "/characteristics", "/pairings"}
+	ep := endpoints[verif.Choice("endpoint", len(endpoints))]
+	method := []string{"GET", "PUT", "POST"}[verif.Choice("method", 3)]
+	verif.Fact("endpoint", ep)
+	verif.Fact("method", method)
+	h := verif.MuxHandler(w.srv.Mux, ep)
+	if h == nil {
+		return
+	}
+	var body []byte
+	form := url.Values{}
+	switch ep {
+	case "/characteristics":
+		form.Set("id", "1."+itoa(w.bright.Characteristic.ID))
+		body, _ = json.Marshal(map[string]interface{}{"characteristics": []interface{}{
+			map[string]interface{}{"aid": w.acc.ID, "iid": w.bright.Characteristic.ID, "value": float64(verif.U8("newval")), "ev": true}}})
+	case "/pairings":
+		c := util.NewTLV8Container()
+		c.SetByte(pair.TagPairingMethod, verif.U8("pairing-method"))
+		c.SetString(pair.TagUsername, []string{"evil", "controller-1"}[verif.Choice("victim", 2)])
+		c.SetBytes(pair.TagPublicKey, verif.Bytes("attacker-ltpk", 32))
+		c.SetByte(pair.TagPermission, verif.U8("perm"))
+		body = c.BytesBuffer().Bytes()
+	}
+	rec := newRecorder()
+	p := verif.Panics(func() { h.ServeHTTP(rec, zzRequest(method, ep, remote, form, body)) })
+	verif.Assert(!p, "nopanic-request-without-session")
+	verif.Assert(w.on.Characteristic.Value == oldOn && w.bright.Characteristic.Value == oldBright, "no-value-change")
+	verif.Assert(w.db.saves == saves0 && w.db.deletes == deletes0 && len(w.emitted) == 0, "no-pairing-change")
+	for _, d := range rec.docs() {
+		if m, ok := d.(map[string]interface{}); ok {
+			_, a := m["accessories"]
+			_, c := m["characteristics"]
+			verif.Assert(!a && !c, "no-disclosure")
+		}
+	}
+	verif.Assert(rec.status >= 400, "refused-with-error-status")
+	verif.Reach("end")
+}
+
 // Vacuity twin: the same requests on the verified connection do take effect.
 func Harness_C01_q_verified_twin() {
 	w := newWorld()
